@@ -82,6 +82,9 @@ class SegmentAllocationTableAdapter(Adapter):
                 continue_flag = True 
                 while continue_flag:
                     if subpath_index >= size:
+                        if previous_sector_was_directory and len(links) > 0:
+                            # a directory run that ends with the table
+                            add_to_sector_links(links, sector_links)
                         continue_flag = False
                         break
 
